@@ -1,8 +1,90 @@
 /-
-  C11 — token-editing transformations change exactly the targeted tokens (theorems being added)
+  C11 — token-editing transformations change exactly the targeted tokens
 -/
 import TT.Spec.Edit
+import TT.Lemmas.Sort
+import TT.Lemmas.Nav
+import TT.Lemmas.WF
+import TT.Lemmas.Edit
 namespace TT.Props.C11
-open TT TT.Tree TT.Spec
+open TT TT.Tree TT.Spec TT.Lemmas.WF TT.Lemmas.Edit
+
+/-! ## filter_by_length -/
+
+theorem filter_spec (op : FilterOp) (v : Nat) (t : Tree) :
+    filterByLength op v t = (if (match op with
+        | .lt => decide (t.terminals.length < v) | .gt => decide (t.terminals.length > v)
+        | .eq => t.terminals.length == v | .other => false) then none else some t) := by
+  cases op <;> simp [filterByLength]
+
+/-! ## delete_terminal -/
+
+theorem delLeaf_leafNums (k : Nat) (t : Tree) :
+    (match delLeaf k t with | some t' => t'.leafNums | none => []) =
+      (t.leafNums.filter (· ≠ k)).map (fun n => if n > k then n - 1 else n) := by
+  have h := congrArg (List.map num) (delLeaf_leaves k t)
+  rw [filter_map_num_sh] at h
+  rw [← show t.leafNums = t.leaves.map num from rfl] at h
+  rw [← h]
+  cases delLeaf k t <;> rfl
+
+theorem deleteTerminal_leafNums (t : Tree) (k : Nat) (h : t.isLeaf = false) :
+    (deleteTerminal t k).leafNums = (t.leafNums.filter (· ≠ k)).map (fun n => if n > k then n - 1 else n) :=
+  deleteTerminal_leafNums' t k h
+
+/-- tokens keep word and POS, relative order, and are renumbered without holes -/
+theorem deleteTerminal_sentence (t : Tree) (k : Nat) (h : WF t = true) (hk : k ∈ t.leafNums) :
+    (deleteTerminal t k).sentence = dropPositions t.sentence [k] := by
+  have hN := Numbered_of_WF t h
+  have _ := hk
+  rw [deleteTerminal_sentence' t k hN.1, sentence_eq,
+    ← filter_num_eq_dropPositions t.terminals [k] hN.terminals_num]
+  congr 2
+  funext l
+  by_cases e : l.num = k <;> simp [e]
+
+theorem deleteTerminal_yield (t : Tree) (k : Nat) (h : WF t = true) (hk : k ∈ t.leafNums) :
+    (deleteTerminal t k).yield = List.range' 1 (t.leafNums.length - 1) := by
+  have hN := Numbered_of_WF t h
+  rw [← deleteTerminal_length t k hN hk]
+  exact (deleteTerminal_numbered t k hN hk).2
+
+/-- constituents left without tokens are pruned: below the root no childless constituent remains -/
+theorem deleteTerminal_pruned (t : Tree) (k : Nat) (h : t.noEmpty = true) :
+    (match deleteTerminal t k with | node _ ks => noEmptyL ks | leaf _ _ => true) = true := by
+  cases t with
+  | leaf n f => rfl
+  | node f ks =>
+    simp only [deleteTerminal]
+    exact delLeafL_noEmpty k ks ((noEmptyL_iff ks).2 ((noEmpty_node f ks).1 h).2)
+
+/-! ## punctuation_delete -/
+
+theorem punctuationDelete_all_punct (t : Tree)
+    (h : (t.terminals.filter isPunctWord).length = t.terminals.length) : (punctuationDelete t).1 = t := by
+  simp [punctuationDelete, h]
+
+theorem punctuationDelete_lines (t : Tree) (h : (t.terminals.filter isPunctWord).length ≠ t.terminals.length) :
+    (punctuationDelete t).2 = (t.terminals.filter isPunctWord).map fun l => (l.num, l.fields.word, l.fields.label) := by
+  simp [punctuationDelete, h]
+
+theorem punctuationDelete_spec (t : Tree) (h : WF t = true) : deletePunctOK t (punctuationDelete t).1 = true := by
+  have hN := Numbered_of_WF t h
+  unfold deletePunctOK punctPositions
+  by_cases hc : (t.terminals.filter isPunctWord).length = t.terminals.length
+  · simp [punctuationDelete, hc]
+  · have hs := filter_terminals_nums t isPunctWord hN
+    have := (deleteMany_spec t _ hN hs.1 hs.2).2.2
+    simp [punctuationDelete, hc, this]
+
+theorem punctuationDelete_yield (t : Tree) (h : WF t = true)
+    (hp : (t.terminals.filter isPunctWord).length ≠ t.terminals.length) :
+    (punctuationDelete t).1.yield = List.range' 1 (t.terminals.length - (t.terminals.filter isPunctWord).length) := by
+  have hN := Numbered_of_WF t h
+  have hs := filter_terminals_nums t isPunctWord hN
+  have hd := deleteMany_spec t _ hN hs.1 hs.2
+  have e : (punctuationDelete t).1 = deleteMany t ((t.terminals.filter isPunctWord).map num) := by
+    simp [punctuationDelete, hp]
+  rw [e, hd.1.2, hd.2.1, List.length_map, terminals_length]
 
 end TT.Props.C11
